@@ -28,6 +28,44 @@ func topLevelCallsArg(body []ast.Stmt, name string) []string {
 	return out
 }
 
+// pipeRoles names the identifiers of PipeData by role, so that renaming a parameter or a local does not change a reading: the first
+// parameter is "down", the second "up"; the report channel fed by the loop that READS from the first parameter is "downPipe", the
+// other "upPipe" (go pipeData(<chan>, <from>, <to>)).
+func pipeRoles(pd *ast.FuncDecl) map[string]string {
+	r := map[string]string{}
+	var params []string
+	for _, fl := range pd.Type.Params.List {
+		for _, n := range fl.Names {
+			params = append(params, n.Name)
+		}
+	}
+	if len(params) != 2 {
+		die("PipeData: expected two parameters")
+	}
+	r[params[0]], r[params[1]] = "down", "up"
+	ast.Inspect(pd.Body, func(n ast.Node) bool {
+		g, ok := n.(*ast.GoStmt)
+		if !ok || len(g.Call.Args) != 3 {
+			return true
+		}
+		ch, from := exprText(g.Call.Args[0]), exprText(g.Call.Args[1])
+		if from == params[0] {
+			r[ch] = "downPipe"
+		} else if from == params[1] {
+			r[ch] = "upPipe"
+		}
+		return true
+	})
+	return r
+}
+
+func roleName(r map[string]string, s string) string {
+	if v, ok := r[s]; ok {
+		return v
+	}
+	return s
+}
+
 func init() {
 	emitters = append(emitters, func() *coqFile {
 		f := newCoq("Shapes2")
@@ -37,6 +75,7 @@ func init() {
 		}
 		// PipeData: which side is closed unconditionally when which copy loop reports first
 		pd := findFunc(streamsDir, "", "PipeData")
+		roles := pipeRoles(pd)
 		found := 0
 		ast.Inspect(pd.Body, func(n ast.Node) bool {
 			sel, ok := n.(*ast.SelectStmt)
@@ -51,14 +90,14 @@ func init() {
 				ch := ""
 				ast.Inspect(cc.Comm, func(m ast.Node) bool {
 					if u, ok := m.(*ast.UnaryExpr); ok {
-						ch = exprText(u.X)
+						ch = roleName(roles, exprText(u.X))
 					}
 					return true
 				})
 				closed := topLevelCallsArg(cc.Body, "TryClose")
 				first := ""
 				if len(closed) > 0 {
-					first = closed[0]
+					first = roleName(roles, closed[0])
 				}
 				switch ch {
 				case "downPipe":
@@ -83,7 +122,7 @@ func init() {
 			}
 			var args []string
 			for _, a := range g.Call.Args {
-				args = append(args, exprText(a))
+				args = append(args, roleName(roles, exprText(a)))
 			}
 			feeds = append(feeds, exprText(g.Call.Fun)+"("+strings.Join(args, ",")+")")
 			return true
